@@ -543,6 +543,31 @@ def r27(ctx) -> None:
                             f'the map',
                             f'`{arg}` is added to the index but is not what '
                             f'is stored in _flags_key_map')
+            # a function that REPLACES a map entry also takes the replaced
+            # key out of the index
+            stores = [s_ for s_ in walk_local(f.node)
+                      if isinstance(s_, ast.Assign) and any(
+                          isinstance(t, ast.Subscript)
+                          and is_attr(t.value, '_flags_key_map', 'self')
+                          for t in s_.targets)]
+            if stores:
+                n += 1
+                drops = [c for c in calls_in(f.node)
+                         if isinstance(c.func, ast.Attribute)
+                         and is_attr(c.func.value, '_flags_key_set', 'self')
+                         and c.func.attr in ('discard', 'remove') and c.args
+                         and (txt(c.args[0]) in old_names or txt(
+                             c.args[0]).startswith('self._flags_key_map'))]
+                R.check(bool(drops), f, stores[0],
+                        f'{f.qualname}: replacing a map entry discards the '
+                        f'replaced key from the index',
+                        f'`{txt(stores[0])[:50]}` overwrites the (uid, '
+                        f'flags) key of a message but nothing in '
+                        f'{f.qualname} removes the old key from '
+                        f'_flags_key_set: stale keys pile up in the set '
+                        f'that _compare diffs, so a change BACK to a flag '
+                        f'combination this session has already seen gives '
+                        f'an empty difference and is never reported')
     if n == 0:
         R.fail(None, None, 'flag-key index is maintained',
                'no discard/add on _flags_key_set found')
